@@ -16,7 +16,7 @@ RUNTS = os.path.join(VERIF, "harness", "runts.js")
 INVS = {
     "C01": ["C01_Run"],
     "C02": ["C02_Run"],
-    "C04": ["C04_Run"],
+    "C04": ["C04_Run", "C04_ClimbRun"],
     "C05": ["C05_Agree"],
     "C06": ["C06_Run"],
     "C07": ["C07_Value", "C01_Run"],
